@@ -773,3 +773,78 @@ class RlRaggedRemoveEmpty(Family):
                         rows_e.append(e)
                         rows_v.append([10 + i for i in range(len(d))])
                     yield {"events": rows_e, "values": rows_v}
+
+
+@register
+class RlRaggedRowSum(Family):
+    """RunLengthRaggedArray.sum(axis=-1) for integer values: the sum of every decoded row.  With DS(r, x) the prefix sums of the decoded row r
+    (DS(r, x+1) = DS(r, x) + W(r, run of x)), result[r] == DS(r, length of row r).  Inductions along a run and over the runs of a row; the products
+    length * value are nonlinear terms handled by the solver's arithmetic; integers are mathematical."""
+    name = "RunLengthRaggedArray.sum[axis=-1]"
+    qualname = "npstructures.runlengtharray:RunLength2dArray.sum"
+    serves = ["C17"]
+    timeout_ms = 30000
+    assumed = ["RaggedArray operations through their contracts (SpecRagged: column ranges, -, *, row reduction = left fold of the row; audited)",
+               "integer data as mathematical integers", "lemma partition-point (the run containing a position of a row)"]
+
+    def run(self, ctx, kind):
+        st = sym_rl_ragged(ctx, kind="int")
+        n, VL, B, W = st["n"], st["VL"], st["B"], st["W"]
+        runr = z3.Function(fresh_name("runr"), z3.IntSort(), z3.IntSort(), z3.IntSort())
+        ctx.assume_forall("run of a position of a row", lambda r_, x: z3.Implies(z3.And(0 <= r_, r_ < n, 0 <= x, x < B(r_, VL(r_))), z3.And(
+            0 <= runr(r_, x), runr(r_, x) < VL(r_), B(r_, runr(r_, x)) <= x, x < B(r_, runr(r_, x) + 1))), arity=2)
+        ctx.assume_forall("B increasing (pairwise; lemma adjacent-sorted=>sorted)", lambda r_, a_, b_: z3.Implies(
+            z3.And(0 <= r_, r_ < n, 0 <= a_, a_ < b_, b_ <= VL(r_)), B(r_, a_) < B(r_, b_)), arity=3)
+        DS = z3.Function(fresh_name("DS"), z3.IntSort(), z3.IntSort(), z3.IntSort())
+        ctx.assume_forall("DS.base (spec)", lambda r_: DS(r_, 0) == 0)
+        ctx.assume_forall("DS.step (spec: prefix sums of the decoded row)", lambda r_, x: z3.Implies(z3.And(0 <= r_, r_ < n, 0 <= x, x < B(r_, VL(r_))),
+                          DS(r_, x + 1) == DS(r_, x) + W(r_, runr(r_, x))), arity=2)
+        res = st["obj"].sum(axis=-1)
+        red = ctx.ghost["spec_reductions"][-1]
+        fold, prod = red["fold"], red["spec"]
+        PS_ = prod._shape.S
+        VS = st["vals"]._shape.S
+        ctx.prove("post.one sum per row", dim_term(res.shape_[0]) == n)
+        r, c, k = z3.Int("r"), z3.Int("c"), z3.Int("k")
+        ctx.skolem(z3.And(0 <= r, r < n, 0 <= c, c < VL(r)))
+        ctx.prove_then_assume("lemma: the product array holds length * value of every run", prod.cell(r, c) == W(r, c) * (B(r, c + 1) - B(r, c)), pool=[r, c, c + 1])
+        ctx.skolem(z3.And(0 <= k, k < B(r, c + 1) - B(r, c)))
+        x = B(r, c) + k
+        ctx.prove_then_assume("lemma: position B(r,c)+k of row r lies in run c", runr(r, x) == c, pool=[r, x, c, c + 1, runr(r, x), runr(r, x) + 1, VL(r), z3.IntVal(0)])
+        inv = lambda k_: DS(r, B(r, c) + k_) == DS(r, B(r, c)) + k_ * W(r, c)
+        ctx.prove("lemmaA.base: k = 0", inv(z3.IntVal(0)), pool=[r, c], live=[k])
+        ctx.prove("lemmaA.step: along run c from k to k+1", z3.Implies(inv(k), inv(k + 1)), pool=[r, c, c + 1, x, x + 1, VL(r), z3.IntVal(0)])
+        ctx.assume_forall("lemmaA (by induction on k)", lambda r_, c_, k_: z3.Implies(z3.And(0 <= r_, r_ < n, 0 <= c_, c_ < VL(r_), 0 <= k_, k_ <= B(r_, c_ + 1) - B(r_, c_)),
+                          DS(r_, B(r_, c_) + k_) == DS(r_, B(r_, c_)) + k_ * W(r_, c_)), arity=3)
+        r2, c2 = z3.Int("r2"), z3.Int("c2")
+        ctx.skolem(z3.And(0 <= r2, r2 < n, 1 <= c2, c2 < VL(r2)))
+        fl = prod.ravel()
+        prow = prod._shape.rowof
+        q0, q = PS_(r2), PS_(r2) + c2
+        invB = lambda c_: fold(PS_(r2), PS_(r2) + c_) == DS(r2, B(r2, c_))
+        cellp = [r2, r2 + 1, n, z3.IntVal(0), z3.IntVal(1)]
+        ctx.prove("lemmaB.base: the fold over the first run is the decoded prefix sum at its end", invB(z3.IntVal(1)),
+                  pool=cellp + [q0, q0 + 1, prow(q0), prow(q0) + 1, B(r2, 1) - B(r2, 0), VL(r2)], live=[c2])
+        ctx.prove("lemmaB.step: one more run", z3.Implies(invB(c2), invB(c2 + 1)),
+                  pool=cellp + [c2, c2 + 1, q0, q, q + 1, prow(q), prow(q) + 1, B(r2, c2 + 1) - B(r2, c2), VL(r2)])
+        ctx.assume_forall("lemmaB (by induction on the number of runs)", lambda r_, c_: z3.Implies(z3.And(0 <= r_, r_ < n, 1 <= c_, c_ <= VL(r_)),
+                          fold(PS_(r_), PS_(r_) + c_) == DS(r_, B(r_, c_))), arity=2)
+        r3 = z3.Int("r3")
+        ctx.skolem(z3.And(0 <= r3, r3 < n))
+        ctx.prove("post.result[r] == sum of the decoded row r", res.get(r3) == DS(r3, B(r3, VL(r3))), pool=[r3, r3 + 1, VL(r3), n])
+        ctx.prove("post.operands not modified", z3.BoolVal(st["inds"].writes == 0 and st["vals"].writes == 0))
+
+    def concrete(self, case):
+        from npstructures import RaggedArray
+        from npstructures.runlengtharray import RunLengthRaggedArray
+        rows = case["rows"]
+        rr = RunLengthRaggedArray.from_ragged_array(RaggedArray(rows))
+        got = np.asarray(rr.sum(axis=-1)).tolist()
+        exp = [sum(r) for r in rows]
+        if got != exp:
+            return {"msg": f"RunLengthRaggedArray.sum(axis=-1) for rows {rows}: {got}, expected {exp}", "sig": "wrong:rlragged-rowsum"}
+
+    def concretise(self, kind, model, ghost):
+        return {"rows": [[1, 1, 2], [2], [3, 3]]}
+
+    bounded_cases = RlRaggedRavel.bounded_cases
